@@ -492,15 +492,18 @@ class Hist:
                            dict(fresh=sorted(map(str, fresh)),
                                 incremental=sorted(map(str, got))))
             return
+        # (which file represents a restart depends on directory order, so a
+        # restart with the substr-var feature may differ between the copies)
         for k in got:
             if k == "overall":
                 if fresh[k] != got[k]:
                     self.note.fail(
-                        f"fresh-vs-incremental:overall{self.tag}",
+                        "fresh-vs-incremental:overall"
+                        + self.rtag(None),
                         dict(fresh=fresh[k], incremental=got[k]))
             else:
                 cmp_restart(got[k], dict(fresh[k]), "fresh-vs-incremental",
-                            self.tag, self.note)
+                            self.vtag(k), self.note)
 
     # -- operations --------------------------------------------------------
     def catalogue_new(self, skip_last):
